@@ -25,6 +25,7 @@
 #include "cmd_itoa.h"
 #include "cmd_ftoa.h"
 #include "cmd_memcmp.h"
+#include "cmd_merge.h"
 #include "cmd_number.h"
 #include "cmd_ondemand.h"
 #include "cmd_parse.h"
@@ -51,6 +52,8 @@ int main(int argc, char** argv) {
       vnum::cmd(tok, out);
     } else if (tok[0] == "ondemand" || tok[0] == "pod") {
       vod::cmd(tok, out);
+    } else if (tok[0] == "schema" || tok[0] == "lazy") {
+      vmerge::cmd(tok, out);
     } else if (tok[0] == "memcmp") {
       cmd_memcmp(tok, out);
     } else if (tok[0] == "quote") {
